@@ -63,6 +63,11 @@ class ExprMixin(object):
     def truth(self, st, v, label=None):
         """fork on the Python truth value of v: yields (state, bool)"""
         for s, a in self.split(st, v):
+            if isinstance(a, RefV) and a.kind == 'rec' and s.heap.get((a.id, '__closed__'), False) and (a.id, '__keys__') in s.heap:
+                # a mapping is true exactly when it has at least one key (closed record: the declared optional fields)
+                flags = [s.heap[(a.id, k)][0] for k in s.heap[(a.id, '__keys__')]]
+                yield from self.fork(s, z3.Or(*flags) if flags else z3.BoolVal(False), label)
+                continue
             yield from self.fork(s, truthy(self.deref_list(a, s)), label)
 
     # ---------------------------------------------------------------- dispatch
@@ -534,6 +539,9 @@ class ExprMixin(object):
                         pass
                 raise Unsupported('attribute %s.%s (not a declared field) at line %s' % (b.cls, attr, line))
         if isinstance(b, ConstV) and isinstance(b.py, ClassHandle):
+            if attr == '__name__':
+                yield st, lift(b.py.name)
+                return
             c, m = b.py.find_method(attr)
             if m is not None:
                 yield st, FuncV('%s.%s' % (b.py.name, attr), ('classfn', b.py, c, m))
